@@ -187,11 +187,12 @@ def run_real(case):
             any_dup = True
             break
     vs = []
-    if not real_distinct:
-        vs.append(V("duplicate-samples-real-pool", f"real multiprocessing pool, N={N} W={W}: equality pattern {[real.index(d) for d in real]}", None))
-    if real_distinct and any_dup:
-        # the real scheduler may have happened to use one worker only - not a contradiction, but report as a counter
-        pass
+    # The real scheduler is not controlled, so this case never reports a violation of its own (the schedule enumeration does, deterministically).
+    # It only binds the model to reality: duplicates in the real pool that NO virtual schedule predicts mean the fork model is wrong.
+    if not real_distinct and not any_dup:
+        from mc.runner import HarnessError
+
+        raise HarnessError(f"real pool (N={N}, W={W}) produced duplicate samples {[real.index(d) for d in real]} but no virtual schedule predicts any: the fork model is not faithful")
     return dict(states=1, transitions=N, traces=1, nontrivial=True, violations=vs, counters=dict(real_runs=1, real_all_distinct=int(real_distinct), virtual_predicts_duplicates=int(any_dup)))
 
 
